@@ -15,6 +15,25 @@ func TestMain(m *testing.M) { pbt.Main(m, "C04") }
 
 func TestVectorisedRunAllModels(t *testing.T) { pbt.Run(t, vrun.GenFor("", 1, 8), vrun.Check) }
 
+// Every boundary cell count once, deterministically (the drawn cases only meet them now and then): three cheap
+// stateful models, short series.  The cases are examples of the ordinary generator at a fixed seed.
+func TestCellCountBoundaries(t *testing.T) {
+	if pbt.ReplayDirect(t, vrun.Check) {
+		return
+	}
+	if sh, _ := pbt.Shard(); sh != 0 {
+		t.Skip("enumeration runs in shard 0 only")
+	}
+	for _, n := range vrun.BoundaryCounts {
+		for k, model := range []string{"Lag", "Muskingum", "GR4J"} {
+			c := rapid.Custom(vrun.GenExact(model, n)).Example(n*3 + k)
+			if !pbt.Direct(t, c, vrun.Check) {
+				return
+			}
+		}
+	}
+}
+
 // Round-robin over the catalogue so that no model is starved (thorough tier).
 func TestVectorisedRunPerModel(t *testing.T) {
 	if !pbt.Thorough() && !pbt.ReplayOnly() {
